@@ -172,3 +172,160 @@ Theorem C13_refuted_before_fix :
   map (woken (fst (acquire_p_finish stB 2 0 4 true (RExc ECancelled)))) [6; 3] = [false; true].
 Proof. exact refuted_before_fix. Qed.
 Print Assumptions C13_refuted_before_fix.
+
+(* ====================================================================================
+   Second round (Sched/LockLive.v): the link between a queued waiter and its task, and -
+   combined with the C09 partition invariant Inv09 (Sched/Partition*.v) - the ready-queue
+   half of "no lost wake-up", quiescent cleanliness and FIFO progress on the list loop.
+
+   New invariant LV, proved through all actions for all programs under run_ok alone:
+     - converse of I2: every future queued on a PriorityLock belongs to an acquire frame
+       `InAcquireP l f` stored in some task's suspended stack (or, inside a step, held by the
+       running computation) - with Inv (I2): exactly one task, stack = InFut f :: InAcquireP l f ..;
+     - a task whose _fut_waiter is f is suspended in `await f` (top frame InFut f).
+   The waiter's task is identified through its FRAME, not through the model's `lwt` table:
+   for an acquire started inside asynkit.eager() the model records the parent in `lwt`
+   (asyncio.current_task() at that time) while the continuation task resumes the frame.
+
+   Additional side conditions:
+     - PartitionRun.actions_ok (C09): task_timeout exits use a block id of an earlier enter;
+     - hypothesis "no external completion" on the state considered: a task whose future is
+       done has no suspended frames.  The model lets user code call set_result / set_exception
+       / Future.cancel on a TASK's own future (real asyncio.Task raises RuntimeError; C09 note,
+       side condition 2), which leaves a "done" task that never resumes its frames.
+   Vocabulary (Sched/PartTables.v): hcnt s t = number of ready-queue entries that are step /
+   wake-up handles of task t (cancelled handles are never task handles, i_canc);
+   ccnt s t g = number of wake-up callbacks of t on future g; bo s t = the PENDING future t
+   waits on. *)
+From Asynkit Require Import Sched.LockLive.
+From Asynkit Require Sched.PartTables Sched.PartitionRun.
+From RecordUpdate Require Import RecordUpdate.
+Import RecordSetNotations.
+
+(* converse of I2, and _fut_waiter vs. top frame: in every reachable state (both loops) *)
+Theorem C13_waiter_link :
+  forall prio_loop factor draws lks cds nev acts,
+    run_ok (init_st prio_loop factor draws lks cds nev) acts ->
+    let s := fold_left do_action acts (init_st prio_loop factor draws lks cds nev) in
+    (forall l f, In f (pq_objs (lpq (getl s l))) ->
+       exists t had rest, t < length (tasks s) /\
+                          tframes s t = InFut f :: InAcquireP l f had :: rest) /\
+    (forall t f, twaiter (gett s t) = Some f -> exists rest, tframes s t = InFut f :: rest).
+Proof. exact waiter_link_reach. Qed.
+Print Assumptions C13_waiter_link.
+
+(* I3: in every reachable state (both loops) the task of every queued waiter (f on lock l) is
+   not done and is either blocked on f (f pending, _fut_waiter = f, exactly one wake-up
+   callback on f, no handle in the ready queue) or runnable with exactly one handle in the
+   ready queue and no wake-up callback on any pending future (f done: woken or cancelled; or
+   f still pending and the task thrown into / interrupted: _fut_waiter cleared) *)
+Theorem C13_waiter_states :
+  forall prio_loop factor draws lks cds nev acts,
+    let s0 := init_st prio_loop factor draws lks cds nev in
+    run_ok s0 acts -> PartitionRun.actions_ok s0 acts ->
+    let s := fold_left do_action acts s0 in
+    (forall t, tdone s t = true -> tframes s t = []) ->
+    forall l f, In f (pq_objs (lpq (getl s l))) ->
+    exists t had rest,
+      t < length (tasks s) /\ tframes s t = InFut f :: InAcquireP l f had :: rest /\
+      tdone s t = false /\
+      ((fdone s f = false /\ twaiter (gett s t) = Some f /\
+        PartTables.hcnt s t = 0 /\ PartTables.ccnt s t f = 1) \/
+       (PartTables.bo s t = None /\ PartTables.hcnt s t = 1 /\
+        forall g, fdone s g = false -> PartTables.ccnt s t g = 0)).
+Proof. exact waiter_states_reach. Qed.
+Print Assumptions C13_waiter_states.
+
+(* I4 in full (no lost wake-up): in every reachable state (both loops) a FREE PriorityLock
+   with waiters has a queued waiter whose future is done - woken with a result, or cancelled -
+   and whose task is not done, is suspended in acquire()'s `await fut`, and has exactly one
+   handle in the ready queue (and is not waiting on anything pending): it is scheduled to run,
+   and its resumption takes the lock or passes the wake-up on in the finally clause
+   (lstep_acquire_p_finish, WF4) *)
+Theorem C13_wake_in_flight_full :
+  forall prio_loop factor draws lks cds nev acts,
+    let s0 := init_st prio_loop factor draws lks cds nev in
+    run_ok s0 acts -> PartitionRun.actions_ok s0 acts ->
+    let s := fold_left do_action acts s0 in
+    (forall t, tdone s t = true -> tframes s t = []) ->
+    forall l, lkind_ (getl s l) = LPrio -> llocked (getl s l) = false ->
+      pq_objs (lpq (getl s l)) <> [] ->
+    exists f t had rest,
+      In f (pq_objs (lpq (getl s l))) /\ fdone s f = true /\
+      (woken s f = true \/ fcancelled s f = true) /\
+      t < length (tasks s) /\ tframes s t = InFut f :: InAcquireP l f had :: rest /\
+      tdone s t = false /\ PartTables.hcnt s t = 1 /\ PartTables.bo s t = None /\
+      (forall g, fdone s g = false -> PartTables.ccnt s t g = 0).
+Proof. exact wake_in_flight_full_reach. Qed.
+Print Assumptions C13_wake_in_flight_full.
+
+(* quiescent cleanliness: in a reachable state (both loops) in which every task is done, no
+   task's future was completed from outside, and no lock is owned by a finished task
+   ("bracketed" programs: every release in finally position - hypothesis), every PriorityLock
+   has no owner, is unlocked, has an empty waiter queue, nobody records it as held, and no
+   acquire (or any other) frame is left anywhere *)
+Theorem C13_quiescent_clean :
+  forall prio_loop factor draws lks cds nev acts,
+    run_ok (init_st prio_loop factor draws lks cds nev) acts ->
+    let s := fold_left do_action acts (init_st prio_loop factor draws lks cds nev) in
+    (forall t, t < length (tasks s) -> tdone s t = true) ->
+    (forall t, tdone s t = true -> tframes s t = []) ->
+    (forall l t, lowner (getl s l) = Some t -> tdone s t = false) ->
+    forall l, l < length (locks s) -> lkind_ (getl s l) = LPrio ->
+      lowner (getl s l) = None /\ llocked (getl s l) = false /\ pq_objs (lpq (getl s l)) = [] /\
+      (forall t, ~ In l (tholding (gett s t))) /\
+      (forall t fr, In fr (tframes s t) -> False).
+Proof. exact quiescent_clean_reach. Qed.
+Print Assumptions C13_quiescent_clean.
+
+(* FIFO progress on the list loop.  [steps i s] = i times AStep; [fifo i s] = each of these i
+   steps leaves the rest of the list queue in place and only appends at its tail (no
+   call_pos / task_reinsert / task_throw removal among them).
+   (a) a handle at position i of the queue is at the head after i such steps and the
+       (i+1)-th AStep pops and runs it;
+   (b) in a reachable state where a PriorityLock is free with waiters, a live handle of a
+       waiter task (future done, task not done) sits at some position i < len(ready), hence
+       runs within len(ready) steps *)
+Theorem C13_progress_list :
+  (forall s q i, ready s = RList q -> i < length q -> fifo i s ->
+     exists rest, ready (steps i s) = RList (nth i q 0 :: rest) /\
+       do_action (steps i s) AStep =
+         (let s1 := (steps i s) <| ready := RList rest |> in
+          if hcancelled (geth s1 (nth i q 0)) then s1
+          else run_callback (hcb (geth s1 (nth i q 0))) s1)) /\
+  (forall factor draws lks cds nev acts,
+    let s0 := init_st false factor draws lks cds nev in
+    run_ok s0 acts -> PartitionRun.actions_ok s0 acts ->
+    let s := fold_left do_action acts s0 in
+    (forall t, tdone s t = true -> tframes s t = []) ->
+    forall l, lkind_ (getl s l) = LPrio -> llocked (getl s l) = false ->
+      pq_objs (lpq (getl s l)) <> [] ->
+    exists q f t had rest i,
+      ready s = RList q /\
+      In f (pq_objs (lpq (getl s l))) /\ fdone s f = true /\
+      tframes s t = InFut f :: InAcquireP l f had :: rest /\ tdone s t = false /\
+      i < length q /\ task_of_handle s (nth i q 0) = Some t /\
+      hcancelled (geth s (nth i q 0)) = false /\
+      (fifo i s -> exists rest', ready (steps i s) = RList (nth i q 0 :: rest') /\
+         do_action (steps i s) AStep =
+           (let s1 := (steps i s) <| ready := RList rest' |> in
+            if hcancelled (geth s1 (nth i q 0)) then s1
+            else run_callback (hcb (geth s1 (nth i q 0))) s1))).
+Proof. split; [exact handle_runs_in_turn|exact progress_list_reach]. Qed.
+Print Assumptions C13_progress_list.
+
+(* non-vacuity on the run of C13_examples (list loop): in stB the lock is free and the woken
+   waiter has exactly one handle; the queue is [W2's wake-up; W1's wake-up], the first step only
+   pops, the second runs W1 to completion; in stC everything is clean *)
+Theorem C13_second_round_examples :
+  (exists f t had rest,
+    In f (objs stB 0) /\ fdone stB f = true /\ (woken stB f = true \/ fcancelled stB f = true) /\
+    t < length (tasks stB) /\ tframes stB t = InFut f :: InAcquireP 0 f had :: rest /\
+    tdone stB t = false /\ PartTables.hcnt stB t = 1 /\ PartTables.bo stB t = None /\
+    (forall g, fdone stB g = false -> PartTables.ccnt stB t g = 0)) /\
+  (ready stB = RList [7; 5] /\ task_of_handle stB 5 = Some 1 /\ fifo 1 stB /\
+   ready (steps 1 stB) = RList [5] /\ tdone (steps 2 stB) 1 = true) /\
+  (lowner (getl stC 0) = None /\ llocked (getl stC 0) = false /\ pq_objs (lpq (getl stC 0)) = [] /\
+   (forall t, ~ In 0 (tholding (gett stC t))) /\ (forall t fr, In fr (tframes stC t) -> False)).
+Proof. exact (conj stB_wake_in_flight (conj stB_progress stC_quiescent)). Qed.
+Print Assumptions C13_second_round_examples.
